@@ -362,7 +362,14 @@ impl fmt::Display for IterableKind {
             IterableKind::Integers(v) => format!("{:?}", v),
             IterableKind::Anys(v) => format!("{:?}", v),
             IterableKind::PositiveIntegers(v) => format!("{:?}", v),
-            IterableKind::Strings(v) => format!("{:?}", v),
+            //strings keep their escapes as written, `{:?}` would escape them a second time
+            IterableKind::Strings(v) => format!(
+                "[{}]",
+                v.iter()
+                    .map(|s| format!("\"{}\"", s))
+                    .collect::<Vec<_>>()
+                    .join(", ")
+            ),
             IterableKind::Edges(v) => format!("{:?}", v),
             IterableKind::Nodes(v) => format!("{:?}", v),
             IterableKind::Tuples(v) => format!("{:?}", v),
